@@ -289,7 +289,7 @@ def run(ctx):
         if ctx.tier == "quick":
             plan = [("small", 60), ("mid", 120)]
         else:
-            plan = [("small", 500), ("mid", 1000), ("big", 10)]
+            plan = [("small", 1000), ("mid", 2000), ("big", 20)]
         reported = set()
         for kind, cnt in plan:
             for i in range(cnt):
